@@ -37,7 +37,7 @@
 From Coq Require Import Floats.
 From SC.Model Require Import Base Num NumF64 Types Config Case Chrono UiTokens Rx Match Post Parser Items Interp RuleFns
      Rules Format Lexer Api Run64.
-From SC.Proofs Require Import C16.
+From SC.Proofs Require Import C16 RegexNeeds.
 
 Section WithNum.
 Context {F : Type} {NF : Num F}.
@@ -316,6 +316,24 @@ Proof.
   destruct (Hlex line line' HR) as (N1 & N2 & Hl). apply execute_text_sim; [exact N1|exact N2|apply Hl].
 Qed.
 
+(* a line of blanks of ANY length produces no token at all and evaluates to nothing: the unbounded
+   form of C16_blank_only (Proofs/RegexNeeds.v: every regex of every parser except whitespace,
+   and every month regex, needs a non-blank character - a finite table over the regenerated
+   regexes plus a once-proved soundness lemma of the analysis against the matcher) *)
+Theorem C16_blank_line_no_tokens : forall (F : Type) (NF : Num F) (today : Z) (cfg : config F) (lang line : str),
+  blank_line line ->
+  language_tokinizer LX cfg lang line empty_state = Ok empty_state /\
+  regex_tokinizer LX today cfg lang line empty_state = Ok empty_state /\
+  token_infos LX today cfg lang line = Ok [].
+Proof. exact @blank_line_no_tokens. Qed.
+
+Theorem C16_blank_line_evaluates_to_nothing : forall (F : Type) (NF : Num F) (ck : clock) (cfg : config F) (lang : str) (vs : vars F) (line : str),
+  blank_line line -> cfg_rules_nonempty cfg -> cfg_units_nonempty cfg -> vars_nonempty vs ->
+  execute_text LX ck cfg lang vs line = Ok (None, vs).
+Proof. exact @blank_line_evaluates_to_nothing. Qed.
+
+Print Assumptions C16_blank_line_no_tokens.
+Print Assumptions C16_blank_line_evaluates_to_nothing.
 Print Assumptions C16_untyped_whitespace.
 Print Assumptions C16_untyped_comment.
 Print Assumptions C16_untyped_dropped_by_cleanup.
